@@ -18,6 +18,16 @@ CLAIMED = {
         note="trusted: Lean kernel, the go/ast translator for super.go, the mkfs/alloc correspondence harness; go-journal's alloc.Alloc is modelled (tied by op-sequence correspondence), not verified",
         technique="Lean 4 proof over regenerated definitions + model/implementation correspondence",
     ),
+    "C16": dict(
+        category="proof",
+        text="Lean 4 theorems: round trip decode(encode v)=v for every XDR type descriptor and value (mutual structural induction); "
+             "the descriptor table and both registration tables REGENERATED from nfstypes/nfs_xdr.go, nfs_types.go and cmd/*/main.go are "
+             "equal to the tables transcribed from RFC 1813 (rfl / decide over the whole table); oversize and truncated inputs refused. "
+             "The generic codec model is tied to the real generated Xdr methods by correspondence (values, mutated byte strings, all 28 registrations).",
+        design_ref="DESIGN.md 5/C16",
+        note="trusted: Lean kernel, the go/ast translator for nfs_xdr.go, the RFC transcription Spec/Rfc1813.lean, the xdr correspondence harness; go-rpcgen's xdr primitives are modelled (tied by correspondence), not verified",
+        technique="Lean 4 proof (round trip, table equality) over regenerated descriptors + codec correspondence",
+    ),
 }
 
 NOT_YET = "not claimed yet: the model, theorems and correspondence for this property are still being built (see DESIGN.md section 10 build order); nothing is asserted about it"
